@@ -30,13 +30,16 @@ def families(tier, seed):
 
 def main():
     chk = Check("C11", "exploration")
-    driver.run_family(
-        chk, "run-vs-explicit-gamma-chain", families(chk.tier, chk.seed), cases.case_fn, site="C11/run",
+    _cases = families(chk.tier, chk.seed)
+    _results = driver.run_family(
+        chk, "run-vs-explicit-gamma-chain", _cases, cases.case_fn, site="C11/run",
         rule="edges with (delay, spread) pairs rounding to equal and to different orders, same order with different rate, same "
              "delay with different spread, shared sources, shared targets, mixtures with undelayed edges, 4-node rings; "
              "vectorize off and on; every user state variable, every row against the explicit chain of n = round((d/s)^2) "
              "first-order stages of rate n/d (spec_fixed_step); distinct = distinct (model, T, dt, solver, vectorize)",
         sample_of=lambda c: {k: v for k, v in c.items() if k not in ('features',)})
+    driver.run_sequences(chk, "run-vs-explicit-gamma-chain-in-sequence", _cases, _results, cases.case_fn, site="C11/run",
+                         limit=20 if chk.tier == "quick" else 120, seed=chk.seed)
     rc = chk.finish(
         explanation="Bounded: run() of every family member against the explicitly written augmented ODE system integrated "
                     "with the same fixed-step scheme by the spec. Unit gain and mean delay d follow from the chain definition "
